@@ -51,6 +51,53 @@ def native_slider(run, which, sq, occ):
     return out or ('rc=%d %s' % (rc, err[-200:]))
 
 
+def sliders(run, occ, prefix=''):
+    """rook and bishop lookup == ray walk, every square, every occupancy (also discharged inside C01 as its lemma L1)"""
+    for which, (callee, dirs) in SLIDERS.items():
+        for sq in range(64):
+            ex = run.executor()
+            st = State()
+            r = ex.call(callee, [sq_val(sq), bb(occ)], [SQ_T, BB_T], BB_T, st, 'harness')
+            run.absorb(ex)
+            if r is None:
+                run.inconclusive.append('%s sq %d: every path diverges' % (which, sq))
+                continue
+            val, st2 = r
+            term = bv(val[0])
+            ref = R.slider_ref(sq, occ, dirs)
+            q = run.decide(prefix + '%s/sq%d/exact' % (which, sq), [zb(st2.guard), term != ref],
+                           note='get_attacks(%s,sq=%d,occ) != ray-walk reference' % (which, sq))
+            if len(run.samples) < 3:
+                run.samples.append({'obligation': q.qid, 'formula': 'exists occ. lookup(occ) != raywalk(occ)', 'verdict': q.verdict,
+                                    'seconds': round(q.seconds, 3)})
+            if q.verdict == 'sat':
+                o = solve.model_int(q.model, occ)
+                nat = native_slider(run, which, sq, o)
+                want = ref_concrete(sq, o, dirs)
+                if nat != want:
+                    run.violation('%s attacks from square %d with occupancy %#x: engine %s, rules %#x' % (which, sq, o, nat, want),
+                                  {'piece': which, 'square': sq, 'occupancy': o, 'expected': want, 'native': nat})
+                else:
+                    run.inconclusive.append('model for %s sq %d does not reproduce natively (encoder bug?)' % (which, sq))
+            for ob, qq in run.check_obligations(ex, prefix + '%s/sq%d' % (which, sq), pre=[]):
+                o = solve.model_int(qq.model, occ)
+                nat = native_slider(run, which, sq, o)
+                if isinstance(nat, str) and nat.startswith('PANIC'):
+                    run.violation('%s lookup panics for square %d occupancy %#x: %s' % (which, sq, o, nat),
+                                  {'piece': which, 'square': sq, 'occupancy': o, 'expected': ref_concrete(sq, o, dirs), 'native': nat})
+                else:
+                    run.inconclusive.append('panic model for %s sq %d does not reproduce natively: %s' % (which, sq, ob))
+        # vacuity witness: a deliberately false twin must be sat
+        ex = run.executor()
+        r = ex.call(callee, [sq_val(27), bb(occ)], [SQ_T, BB_T], BB_T, State(), 'harness')
+        q = run.decide(prefix + '%s/vacuity-twin' % which, [bv(r[0][0]) != R.slider_ref(28, occ, dirs)], note='false twin (wrong square) must be sat')
+        run.vacuity.append({'harness': which, 'twin_verdict': q.verdict})
+        run.queries.pop()
+        if q.verdict != 'sat':
+            run.inconclusive.append('vacuity witness for %s came back %s' % (which, q.verdict))
+
+
+
 def check(run, replay=None):
     if replay:
         import json
@@ -89,49 +136,7 @@ def check(run, replay=None):
         run.inconclusive.append('translator self-test mismatch: %s' % run.selftest['what'][:3])
         return
 
-    # ---- sliders
-    for which, (callee, dirs) in SLIDERS.items():
-        for sq in range(64):
-            ex = run.executor()
-            st = State()
-            r = ex.call(callee, [sq_val(sq), bb(occ)], [SQ_T, BB_T], BB_T, st, 'harness')
-            run.absorb(ex)
-            if r is None:
-                run.inconclusive.append('%s sq %d: every path diverges' % (which, sq))
-                continue
-            val, st2 = r
-            term = bv(val[0])
-            ref = R.slider_ref(sq, occ, dirs)
-            q = run.decide('%s/sq%d/exact' % (which, sq), [zb(st2.guard), term != ref],
-                           note='get_attacks(%s,sq=%d,occ) != ray-walk reference' % (which, sq))
-            if len(run.samples) < 3:
-                run.samples.append({'obligation': q.qid, 'formula': 'exists occ. lookup(occ) != raywalk(occ)', 'verdict': q.verdict,
-                                    'seconds': round(q.seconds, 3)})
-            if q.verdict == 'sat':
-                o = solve.model_int(q.model, occ)
-                nat = native_slider(run, which, sq, o)
-                want = ref_concrete(sq, o, dirs)
-                if nat != want:
-                    run.violation('%s attacks from square %d with occupancy %#x: engine %s, rules %#x' % (which, sq, o, nat, want),
-                                  {'piece': which, 'square': sq, 'occupancy': o, 'expected': want, 'native': nat})
-                else:
-                    run.inconclusive.append('model for %s sq %d does not reproduce natively (encoder bug?)' % (which, sq))
-            for ob, qq in run.check_obligations(ex, '%s/sq%d' % (which, sq), pre=[]):
-                o = solve.model_int(qq.model, occ)
-                nat = native_slider(run, which, sq, o)
-                if isinstance(nat, str) and nat.startswith('PANIC'):
-                    run.violation('%s lookup panics for square %d occupancy %#x: %s' % (which, sq, o, nat),
-                                  {'piece': which, 'square': sq, 'occupancy': o, 'expected': ref_concrete(sq, o, dirs), 'native': nat})
-                else:
-                    run.inconclusive.append('panic model for %s sq %d does not reproduce natively: %s' % (which, sq, ob))
-        # vacuity witness: a deliberately false twin must be sat
-        ex = run.executor()
-        r = ex.call(callee, [sq_val(27), bb(occ)], [SQ_T, BB_T], BB_T, State(), 'harness')
-        q = run.decide('%s/vacuity-twin' % which, [bv(r[0][0]) != R.slider_ref(28, occ, dirs)], note='false twin (wrong square) must be sat')
-        run.vacuity.append({'harness': which, 'twin_verdict': q.verdict})
-        run.queries.pop()
-        if q.verdict != 'sat':
-            run.inconclusive.append('vacuity witness for %s came back %s' % (which, q.verdict))
+    sliders(run, occ)
 
     # ---- queen = rook | bishop, per square
     for sq in range(64):
